@@ -363,8 +363,21 @@ def _beliefs(R, f_escape: Escape):
             if not has_eq and not is_fence:
                 bad.append(a)
         # and parse_equation returns early for fenced verbatim blocks
-        pe = R.repo.func(f'{P}.parse_equation')
-        early = any(isinstance(n, ast.If) and "startswith('`')" in text(n.test) and any(isinstance(x, ast.Return) for x in n.body) for n in pe.node.body)
+        callers = [g for g in R.repo.functions.values() if g.qualname.startswith(P + '.') and g.qualname.count('.') == P.count('.') + 1
+                   and any(is_call(x, 'parse_equation_terms') for x in iter_own_nodes(g.node))]
+        if not callers:
+            raise Unknown(f'{P}.parse_equation_terms: no caller found')
+        early = True
+        for g in callers:
+            ok_g = False
+            for n in g.node.body:
+                if any(is_call(x, 'parse_equation_terms') for x in ast.walk(n)):
+                    break
+                if isinstance(n, ast.If) and "startswith('`')" in text(n.test) and n.body and isinstance(n.body[-1], ast.Return):
+                    ok_g = True
+            if not ok_g and g.name != 'parse_equation':
+                raise Unknown(f'{g.qualname}: calls parse_equation_terms(); whether fenced blocks are kept away from it was not recognised')
+            early = early and ok_g
         return (not bad and early, 'every non-fence alternative of equation_re has a mandatory `=`; fenced blocks return before the split')
 
     def fact_index_colon(site: Site):
